@@ -18,9 +18,9 @@ def extract(g, X):
     g.attempt([("lex_ws", "list N")], "lexer/mod.rs:is_whitespace", ws)
 
     def delims():
-        # fn is_delimiter(&self, pos) — the method on Lexer: <bytes>.contains(<the byte at pos>)
+        # fn is_delimiter(&self, pos) — the method on Lexer: the predicate applied to the byte at pos, if there is one
         b = X.item_body(lx, r"fn\s+is_delimiter\s*\(\s*&self[^)]*\)\s*->\s*bool\s*\{", "Lexer::is_delimiter")
-        return X.cl(X.ordered(X.contains_bytes(b, lx), [40, 41, 60, 62, 91, 93, 123, 125, 47, 37]))
+        return X.cl(X.ordered(X.option_pred_set(b, lx), [40, 41, 60, 62, 91, 93, 123, 125, 47, 37]))
     g.attempt([("lex_delims", "list N")], "lexer/mod.rs:Lexer::is_delimiter", delims)
 
     def comment():
@@ -46,7 +46,7 @@ def extract(g, X):
         m = re.search(r"for\s+\w+\s+in\s+0\s*\.\.\s*(" + B + r")\s*\{", b)
         loop = X.item_body(b[m.start():], r"\{", "octal loop")
         # the digit test, in either polarity: `if (LO..=HI).contains(&d) { eat } else { break }` / `if !(…) { break }`
-        c = re.search(r"\bif\s+(!?\s*\(?[^{;]*?\.(?:contains\(\s*&?\w+\s*\)|is_ascii_\w+\(\)))\s*\)?\s*\{", loop)
+        c = re.search(r"\bif\s+([^{;]+?)\s*\{", loop)       # the first test in the loop is the digit test
         cond = c.group(1)
         digits = X.byte_set(cond, None, st)
         blk = X.item_body(loop[c.start():], r"\{", "digit test block")
